@@ -29,6 +29,7 @@ type Engine struct {
 	ghostFile  map[*GhostFunc]*ContractFile
 	ghostFields map[string][]*GhostField
 	units     map[string]*Unit
+	unitByLit map[*ast.FuncLit]*Unit
 	unitOrder []string
 	loadErrs  []string
 }
@@ -44,7 +45,7 @@ func (e *Engine) pkgByPathOr(p string, def *packages.Package) *packages.Package 
 func loadEngine(repo string, patterns []string, contractDirs []string) (*Engine, error) {
 	e := &Engine{repo: repo, byPath: map[string]*packages.Package{}, contracts: map[string]*FuncContract{},
 		fileOf: map[*FuncContract]*ContractFile{}, ghostFuncs: map[string]*GhostFunc{}, ghostFile: map[*GhostFunc]*ContractFile{},
-		ghostFields: map[string][]*GhostField{}, units: map[string]*Unit{}}
+		ghostFields: map[string][]*GhostField{}, units: map[string]*Unit{}, unitByLit: map[*ast.FuncLit]*Unit{}}
 	cfg := &packages.Config{Mode: packages.LoadAllSyntax, Dir: repo, BuildFlags: []string{"-tags=verif"},
 		Env: append(os.Environ(), "GOFLAGS=-mod=mod", "GOPROXY=off")}
 	pkgs, err := packages.Load(cfg, patterns...)
@@ -201,6 +202,7 @@ func (e *Engine) discoverClosures(parent *Unit, body ast.Node) {
 				u := &Unit{Key: fmt.Sprintf("%s$%d", parent.Key, n), Pkg: parent.Pkg, Lit: fl, Sig: sig, Body: fl.Body, Parent: parent, External: parent.External}
 				parent.Closures = append(parent.Closures, u)
 				e.addUnit(u)
+				e.unitByLit[fl] = u
 				e.discoverClosures(u, fl.Body)
 				return false
 			}
@@ -267,11 +269,27 @@ func (e *Engine) generate(u *Unit) (res *UnitResult, vcOut *VC) {
 			_ = tp
 		}
 	}
+	if u.Lit != nil {
+		vc.declareCaptured(st)
+	}
 	vc.entry = st
 	if vc.contract != nil {
+		if len(vc.contract.Callbacks) > 0 {
+			vc.cbinvVar()
+		}
 		for _, cb := range vc.contract.Callbacks {
 			vc.callbackVar("ncalls", cb.Name)
 			vc.callbackVar("lasterr", cb.Name)
+			vc.callbackVar("lastres", cb.Name)
+		}
+	}
+	for pu := u.Parent; pu != nil; pu = pu.Parent {
+		if pc := e.contracts[pu.Key]; pc != nil {
+			for _, cb := range pc.Callbacks {
+				vc.callbackVar("ncalls", cb.Name)
+				vc.callbackVar("lasterr", cb.Name)
+				vc.callbackVar("lastres", cb.Name)
+			}
 		}
 	}
 	vc.entry = st.clone()
@@ -440,6 +458,7 @@ func (vc *VC) finish() {
 	if vc.contract == nil {
 		return
 	}
+	vc.frameObligations(final)
 	ctx := vc.newSpecCtx(vc.contract, final, vc.entry)
 	ctx.typeArgs = vc.unitTypeArgs
 	vc.bindOwnParams(ctx)
@@ -467,9 +486,20 @@ func (vc *VC) finish() {
 	if nres >= 1 {
 		ctx.vars["result"] = results[0]
 	}
+	type postClause struct {
+		cl   *Clause
+		name string
+	}
+	var posts []postClause
 	for k, en := range vc.contract.Ensures {
+		posts = append(posts, postClause{en, "post[" + clauseID(en, k) + "]"})
+	}
+	for k, en := range vc.contract.InternalEnsures {
+		posts = append(posts, postClause{en, "post-int[" + clauseID(en, k) + "]"})
+	}
+	for _, pc := range posts {
+		en, name := pc.cl, pc.name
 		t := ctx.tr(en.Expr)
-		name := fmt.Sprintf("post[%d]", k)
 		if len(vc.contract.Splits) == 0 {
 			o := &Obligation{Name: vc.unit.Key + "#" + name, Kind: "post", Unit: vc.unit.Key, Pos: token.Position{Filename: en.File, Line: en.Line},
 				Desc: "ensures " + en.Text, NFacts: len(vc.facts), Guard: final.guard, Goal: t.S, vc: vc}
@@ -591,4 +621,46 @@ func (vc *VC) escapeAnalysis() {
 			vc.nonEscaping[v] = true
 		}
 	}
+}
+
+
+// declareCaptured: variables of the enclosing function used inside a function literal are inputs of the
+// literal's unit (arbitrary values constrained only by its `captures`/`requires` clauses).
+func (vc *VC) declareCaptured(st *State) {
+	lit := vc.unit.Lit
+	seen := map[*types.Var]bool{}
+	var order []*types.Var
+	ast.Inspect(lit.Body, func(n ast.Node) bool {
+		id, ok := n.(*ast.Ident)
+		if !ok {
+			return true
+		}
+		v, ok := vc.info.Uses[id].(*types.Var)
+		if !ok || v.IsField() || seen[v] {
+			return true
+		}
+		if v.Pkg() == nil || v.Parent() == v.Pkg().Scope() {
+			return true // package-level
+		}
+		if v.Pos() >= lit.Pos() && v.Pos() <= lit.End() {
+			return true // local of the literal (or its parameter)
+		}
+		seen[v] = true
+		order = append(order, v)
+		return true
+	})
+	sort.Slice(order, func(i, j int) bool { return order[i].Pos() < order[j].Pos() })
+	for _, v := range order {
+		t := vc.fresh("cap_"+v.Name(), vc.U.sortOf(v.Type()))
+		vc.typeInvariant(st, t)
+		vc.declareVar(st, v, t)
+	}
+}
+
+
+func clauseID(c *Clause, ord int) string {
+	if c.Label != "" {
+		return c.Label
+	}
+	return fmt.Sprint(ord)
 }
